@@ -9,7 +9,13 @@ CORPUS = []
 
 def case(pid, cid, expect, edits, rule=None, func=None, note=""):
     CORPUS.append({"property": pid, "id": cid, "expect": expect, "rule": rule, "func": func, "note": note,
-                   "edits": [{"file": f, "old": o, "new": n} for (f, o, n) in edits]})
+                   "edits": [({"file": e[0], "from_commit": e[1][1:]} if e[1].startswith("@") and len(e) == 2 else
+                              {"file": e[0], "old": e[1], "new": e[2]}) for e in edits]})
+
+
+def prefix(pid, cid, file, commit, rule=None, func=None):
+    """the file as it was before the fix: commit `commit` (defect replay)"""
+    case(pid, cid, "VIOLATION", [(file, "@" + commit + "^")], rule, func, note="pre-fix state of " + commit)
 
 
 # ------------------------------------------------------------------ C01
@@ -39,3 +45,24 @@ case("C01", "multi-advance-no-spacing", "VIOLATION", [(E, "start += motif_length
 case("C01", "multi-advance-wrong-index", "VIOLATION", [(E, "start += motif_lengths[i] + spacing[i]", "start += motif_lengths[i] + spacing[0]")], "R-LEN", "ersatz.multisubstitute")
 case("C01", "multi-advance-equiv", "HOLDS", [(E, "start += motif_lengths[i] + spacing[i]", "start = start + spacing[i] + motif_lengths[i]")])
 case("C01", "multi-spacing-guard", "VIOLATION", [(E, "if l < 0 or l >= X.shape[-1]:", "if l >= X.shape[-1]:")], "R-GUARD", "ersatz.multisubstitute")
+
+# ------------------------------------------------------------------ C07
+D = "tangermeme/deep_lift_shap.py"
+P = "tangermeme/predict.py"
+prefix("C07", "D1-prefix-hooks-leak", D, "71f7994", "R-RELEASE", "deep_lift_shap.deep_lift_shap")
+FIN = "\tfinally:\n\t\tmodel.apply(_clear_hooks)\n\t\tfor module in model.modules():\n\t\t\tdel(module._NON_LINEAR_OPS)\n"
+case("C07", "finally-to-narrow-except", "VIOLATION", [(D, FIN, "\texcept ValueError as e:\n\t\tmodel.apply(_clear_hooks)\n\t\traise(e)\n\tmodel.apply(_clear_hooks)\n")], "R-RELEASE")
+case("C07", "finally-without-clear", "VIOLATION", [(D, FIN, "\tfinally:\n\t\tfor module in model.modules():\n\t\t\tdel(module._NON_LINEAR_OPS)\n")], "R-RELEASE")
+case("C07", "finally-to-except-reraise", "HOLDS", [(D, FIN, "\texcept Exception as e:\n\t\tmodel.apply(_clear_hooks)\n\t\traise e\n\tmodel.apply(_clear_hooks)\n\tfor module in model.modules():\n\t\tdel(module._NON_LINEAR_OPS)\n")])
+case("C07", "early-return-held", "VIOLATION", [(D, "\tattributions, references_, Xi, rj, attr_ = [], [], [], [], []", "\tattributions, references_, Xi, rj, attr_ = [], [], [], [], []\n\tif X.shape[0] == 0:\n\t\tmodel.apply(_register_hooks)\n\t\treturn X")], "R-RELEASE")
+case("C07", "clear-skips-last-handle", "VIOLATION", [(D, "for handle in module.handles:", "for handle in module.handles[:-1]:")], "HOOK-PAIRING")
+case("C07", "register-unrecorded-hook", "VIOLATION", [(D, "\tmodule.handles.append(module.register_full_backward_hook(_b_hook))", "\tmodule.register_full_backward_hook(_b_hook)")], "HOOK-PAIRING")
+case("C07", "predict-train-after", "VIOLATION", [(P, "\tif isinstance(y[0], torch.Tensor):\n\t\ty = torch.cat(y)", "\tmodel.train()\n\tif isinstance(y[0], torch.Tensor):\n\t\ty = torch.cat(y)")], "R-MODEL", "predict.predict")
+case("C07", "predict-no-eval", "VIOLATION", [(P, "model = model.to(device).eval()", "model = model.to(device)")], "R-EVAL")
+case("C07", "predict-no-nograd", "VIOLATION", [(P, "with torch.no_grad():", "with torch.enable_grad():")], "R-NOGRAD")
+case("C07", "predict-inference-mode", "HOLDS", [(P, "with torch.no_grad():", "with torch.inference_mode():")])
+case("C07", "predict-eval-separate", "HOLDS", [(P, "model = model.to(device).eval()", "model = model.to(device)\n\tmodel.eval()")])
+case("C07", "dls-backward", "VIOLATION", [(D, "multipliers = torch.autograd.grad(y.sum(), _X)[0]", "y.sum().backward()\n\t\t\t\t\t\tmultipliers = _X.grad")], "R-MODEL")
+case("C07", "dls-zero-grad", "VIOLATION", [(D, "\tmodel = model.to(device).eval()\n\tfor module in model.modules():", "\tmodel = model.to(device).eval()\n\tmodel.zero_grad()\n\tfor module in model.modules():")], "R-MODEL")
+case("C07", "dls-requires-grad-off", "VIOLATION", [(D, "\tmodel = model.to(device).eval()\n\tfor module in model.modules():", "\tmodel = model.to(device).eval()\n\tfor p in model.parameters():\n\t\tp.requires_grad_(False)\n\tfor module in model.modules():")], "R-MODEL")
+case("C07", "design-float-cast", "VIOLATION", [("tangermeme/design.py", "\ttic = time.time()\n\titeration = 0", "\ttic = time.time()\n\tmodel = model.float()\n\titeration = 0")], "R-MODEL")
